@@ -135,8 +135,8 @@ func c09Seeds(thorough bool) (out [][3]any) {
 }
 
 var (
-	c09Once  [2]sync.Once
-	c09Tabs  [2]*c09Table
+	c09Once [2]sync.Once
+	c09Tabs [2]*c09Table
 )
 
 func c09Tab(thorough bool) *c09Table {
@@ -197,12 +197,12 @@ func c09Tab(thorough bool) *c09Table {
 		// inflated claims followed by K real payload bytes (K around the decoder's chunk sizes)
 		ks := []int{1, 4095, 4096, 4097, 8192, 8193, 70000}
 		heads := [][]byte{
-			append(append([]byte(nil), txid32(5)...), 1, 0, 0, 0),                                   // Input: outpoint, then script length
-			{1, 0, 0, 0, 0, 0, 0, 0},                                                               // Output: value, then script length
-			append(append([]byte{1, 0, 0, 0, 1}, txid32(5)...), 1, 0, 0, 0),                        // Tx with one input
-			append(append([]byte{1, 0, 0, 0, 0, 0, 0, 0, 0, 0xEF, 1}, txid32(5)...), 1, 0, 0, 0),  // extended Tx with one input
-			{1, 0, 0, 0, 0, 1, 9, 0, 0, 0, 0, 0, 0, 0},                                             // Tx, no inputs, one output
-			append(append([]byte{1, 1, 0, 0, 0, 1}, txid32(5)...), 1, 0, 0, 0),                     // tx list of one tx
+			append(append([]byte(nil), txid32(5)...), 1, 0, 0, 0),                                // Input: outpoint, then script length
+			{1, 0, 0, 0, 0, 0, 0, 0},                                                             // Output: value, then script length
+			append(append([]byte{1, 0, 0, 0, 1}, txid32(5)...), 1, 0, 0, 0),                      // Tx with one input
+			append(append([]byte{1, 0, 0, 0, 0, 0, 0, 0, 0, 0xEF, 1}, txid32(5)...), 1, 0, 0, 0), // extended Tx with one input
+			{1, 0, 0, 0, 0, 1, 9, 0, 0, 0, 0, 0, 0, 0},                                           // Tx, no inputs, one output
+			append(append([]byte{1, 1, 0, 0, 0, 1}, txid32(5)...), 1, 0, 0, 0),                   // tx list of one tx
 		}
 		t.add(len(heads)*len(ks)*len(c09Claims), func(j uint64) c09Case {
 			cl := c09Claims[j%uint64(len(c09Claims))]
